@@ -149,6 +149,15 @@ def large_batches(chk, cases, beh, sizes):
                     badrow = int(np.nonzero(np.any(got != exp, axis=1))[0][-1]) if got.shape == exp.shape else -1
                     chk.violation(name, {'property': 'C06', 'part': 'large', 'rows': N, 'keys_per_row': nk, 'row': badrow, 'key': keys[badrow].tolist(), 'block': blocks[badrow].tolist(),
                                          'got': got[badrow].tolist() if badrow >= 0 else list(got.shape), 'expected': exp[badrow].tolist()}, f'{name}: row {badrow} of {N} is not the documented value')
+            if N <= 48:
+                # the same rows with pre-expanded keys (batches of N pre-expanded keys; N = 1, 2, 3 keys of 128 bytes are as many bytes as longer single keys)
+                for M in (2, 3, 4, N):                 # (a batch of ONE row comes back as a single state: shape conventions are not part of the statement)
+                    ek = np.array([expanded_key(beh[i]) for i in idx], dtype='uint8')[sel[:M]]
+                    got = np.asarray(scared.des.encrypt(blocks[:M], ek))
+                    chk.count(('large', nk, N, 'expanded', M), nontrivial=True)
+                    if got.shape != full[:M].shape or not np.array_equal(got, full[:M]):
+                        chk.violation('encrypt:blocks paired with keys (batch of pre-expanded keys)', {'property': 'C06', 'part': 'large', 'rows': M, 'keys_per_row': nk, 'expanded': True, 'got_shape': list(got.shape)},
+                                      f'encrypt of {M} blocks with {M} pre-expanded keys ({ek.shape[1]} bytes each): not the documented values')
             # a stop point: views have different widths, compare row by row against the per-behaviour table
             tab = [np.asarray(beh[i]['enc'][d * 16 + r][s_]) for i in idx]
             got = np.asarray(scared.des.encrypt(blocks, keys, at_des=d, at_round=r, after_step=s_))
@@ -250,7 +259,7 @@ def run(chk):
             all_stops(chk, cases, beh, ci, rounds if full else [0, 15], True, 'uint8')
     shapes(chk, cases, grid, beh, rng, nkeys, nblocks)
     caller_owned(chk, cases, beh)
-    large_batches(chk, cases, beh, [2 ** 16 + 37] if q else [2 ** 16 - 3, 2 ** 16 + 37, 2 ** 17 + 1])
+    large_batches(chk, cases, beh, [16, 32, 48, 2 ** 16 + 37] if q else [16, 32, 48, 6, 2 ** 16 - 3, 2 ** 16 + 37, 2 ** 17 + 1])      # 16 / 32 / 48 master keys: as many bytes as one / two / three pre-expanded keys
     primitives(chk, rng)
     from .. import apirules
     apirules.run(chk, 'des_stop', 'C06')
